@@ -635,4 +635,228 @@ example : ¬ isoDateAst.Accepts "1999-1".toList := by decide
 example : ¬ isoDateAst.Accepts "1999-12-3".toList := by decide
 example : ¬ isoDateAst.Accepts "1999-12-31-".toList := by decide
 
+/-! ## fnumber  (`Regex(r"[+-]?\d+\.?\d*(?:[eE][+-]?\d+)?")`) -/
+
+abbrev eEs : CSet := ⟨false, [.c 'e', .c 'E'], false⟩
+
+/-- exponent part: `e` or `E`, then an optionally signed run of digits -/
+def IsExpo (w : List Char) : Prop := ∃ c t, w = c :: t ∧ (c = 'e' ∨ c = 'E') ∧ IsSignedInteger t
+
+theorem has_eE (c : Char) : eEs.has c = true ↔ (c = 'e' ∨ c = 'E') := by
+  simp [CSet.has, Item.has]
+
+theorem expo_accepts (w : List Char) : expoPart.Accepts w ↔ IsExpo w := by
+  unfold expoPart cls Re.Accepts
+  rw [ends_seq_set]
+  cases w with
+  | nil => simp [IsExpo]
+  | cons c t =>
+    simp only
+    by_cases hc : eEs.has c = true
+    · rw [if_pos hc]
+      have := signed_integer_language t
+      unfold signedIntegerAst Re.Accepts at this
+      unfold signOpt
+      rw [this]
+      constructor
+      · intro h; exact ⟨c, t, rfl, (has_eE c).1 hc, h⟩
+      · rintro ⟨c', t', h, _, ht⟩; simp at h; rw [h.2]; exact ht
+    · rw [if_neg hc]
+      constructor
+      · intro h; simp at h
+      · rintro ⟨c', t', h, hc', _⟩; simp at h; exact absurd ((has_eE c).2 (h.1 ▸ hc')) hc
+
+theorem expo_progress : ∀ s e, e ∈ expoPart.ends s → e.length < s.length := by
+  intro s e h; unfold expoPart cls at h; exact seq_set_progress _ _ s e h
+
+theorem opt_expo_head (w : List Char) :
+    ((opt expoPart).ends w).head? = some [] ↔ (expoPart.Accepts w ∨ w = []) := by
+  rw [ends_opt_progress expoPart w (expo_progress w), List.head?_append]
+  unfold Re.Accepts
+  cases h : (expoPart.ends w).head? with
+  | none =>
+    simp
+  | some e =>
+    simp only [Option.some_or, Option.some.injEq]
+    constructor
+    · intro h'; left; exact h'
+    · rintro (h' | h')
+      · exact h'
+      · subst h'
+        have : expoPart.ends [] = [] := by unfold expoPart cls; rw [ends_seq_set]
+        rw [this] at h; simp at h
+
+def stripDot : List Char → List Char
+  | '.' :: z => z
+  | y => y
+
+theorem opt_dot_head (y : List Char) : ((opt (lit '.')).ends y).head? = some (stripDot y) := by
+  unfold lit
+  rw [ends_opt_set]
+  cases y with
+  | nil => simp [stripDot]
+  | cons c t =>
+    simp only
+    by_cases hc : c = '.'
+    · subst hc; simp [stripDot, CSet.has, Item.has]
+    · have : ¬ (CSet.mk false [.c '.'] false).has c = true := by rw [has_lit]; exact hc
+      rw [if_neg this]
+      unfold stripDot
+      split
+      · rename_i z heq; simp at heq; exact absurd heq.1 hc
+      · rfl
+
+def fnumberBody : Re := seq (plus digit) (seq (opt (lit '.')) (seq (star digit) (opt expoPart)))
+
+theorem fnumber_body_head (x : List Char) :
+    (fnumberBody.ends x).head? =
+      if 1 ≤ (x.takeWhile dset.has).length then
+        ((opt expoPart).ends ((stripDot (x.dropWhile dset.has)).dropWhile dset.has)).head?
+      else none := by
+  have t3 : Total (opt expoPart) := total_opt_progress _ expo_progress
+  have t2 : Total (seq (star digit) (opt expoPart)) := total_seq (total_star_set _) t3
+  have t1 : Total (seq (opt (lit '.')) (seq (star digit) (opt expoPart))) := total_seq (total_opt_set _) t2
+  unfold fnumberBody
+  rw [head_seq_total _ _ t1]
+  have hp : ((plus digit).ends x).head? =
+      if 1 ≤ (x.takeWhile dset.has).length then some (x.dropWhile dset.has) else none := by
+    unfold plus digit; rw [ends_rep_set, repSet_none_head]
+  rw [hp]
+  split
+  · simp only [Option.bind_some]
+    rw [head_seq_total _ _ t2, opt_dot_head]
+    simp only [Option.bind_some]
+    rw [head_seq_total _ _ t3]
+    have hs : ∀ y, ((star digit).ends y).head? = some (y.dropWhile dset.has) := by
+      intro y; unfold star digit; rw [ends_rep_set, repSet_none_head]; simp
+    rw [hs]
+    simp only [Option.bind_some]
+  · rfl
+
+theorem fnumber_noSign : ∀ c t, IsSign c → fnumberBody.ends (c :: t) = [] := by
+  intro c t h
+  unfold fnumberBody plus digit
+  simp only [Re.ends]
+  have : dset.has c = false := by
+    cases hh : dset.has c with
+    | false => rfl
+    | true => exact absurd ((has_digit c).1 hh) (sign_not_digit h)
+  have h0 : repEnds (fun x => Re.ends (.set dset) x) true ((c :: t).length + 1) 1 none (c :: t) = [] := by
+    rw [repEnds_set dset.has _ (by simp [Re.ends]) (by intro c t; simp [Re.ends]) _ _ _ _ (by omega)]
+    simp [repSet, this]
+  simp only [Re.ends] at h0
+  rw [h0]; rfl
+
+/-- documented syntax of the unsigned part: digits, optionally `.` and more digits, optionally an exponent -/
+def IsUFnumber (x : List Char) : Prop :=
+  ∃ a fr ex, x = a ++ (fr ++ ex) ∧ a ≠ [] ∧ (∀ c ∈ a, IsDigit c) ∧
+    (fr = [] ∨ ∃ b, fr = '.' :: b ∧ ∀ c ∈ b, IsDigit c) ∧ (ex = [] ∨ IsExpo ex)
+
+/-- documented syntax: optional sign, digits, optional fraction (`.` digits*), optional exponent -/
+def IsFnumber (s : List Char) : Prop :=
+  ∃ sg x, s = sg ++ x ∧ (sg = [] ∨ ∃ c, IsSign c ∧ sg = [c]) ∧ IsUFnumber x
+
+theorem expo_stop {ex : List Char} (h : ex = [] ∨ IsExpo ex) :
+    ex = [] ∨ ∃ c t, ex = c :: t ∧ dset.has c = false := by
+  rcases h with h | ⟨c, t, rfl, hc, _⟩
+  · left; exact h
+  · right; refine ⟨c, t, rfl, ?_⟩
+    rcases hc with rfl | rfl <;> decide
+
+theorem dset_all {b : List Char} (h : ∀ c ∈ b, IsDigit c) : ∀ c ∈ b, dset.has c = true :=
+  fun c hc => (has_digit c).2 (h c hc)
+
+theorem fnumber_body_language (x : List Char) : fnumberBody.Accepts x ↔ IsUFnumber x := by
+  unfold Re.Accepts
+  rw [fnumber_body_head]
+  constructor
+  · intro h
+    split at h
+    · rename_i hrun
+      rw [opt_expo_head] at h
+      have hx := List.takeWhile_append_dropWhile (p := dset.has) (l := x)
+      have ha : ∀ c ∈ x.takeWhile dset.has, IsDigit c :=
+        fun c hc => (has_digit c).1 (mem_takeWhile_sat _ _ c hc)
+      have hane : x.takeWhile dset.has ≠ [] := by
+        intro h0; rw [h0] at hrun; simp at hrun
+      have hex : ∀ w, (expoPart.Accepts w ∨ w = []) → (w = [] ∨ IsExpo w) := by
+        intro w hw; rcases hw with hw | hw
+        · right; exact (expo_accepts w).1 hw
+        · left; exact hw
+      -- is there a dot after the integer part?
+      cases hy : x.dropWhile dset.has with
+      | nil =>
+        rw [hy] at h hx
+        simp only [stripDot, List.dropWhile_nil] at h
+        exact ⟨x.takeWhile dset.has, [], [], by simpa using hx.symm, hane, ha, Or.inl rfl, Or.inl rfl⟩
+      | cons c z =>
+        rw [hy] at h hx
+        by_cases hc : c = '.'
+        · subst hc
+          simp only [stripDot] at h
+          have hz := List.takeWhile_append_dropWhile (p := dset.has) (l := z)
+          refine ⟨x.takeWhile dset.has, '.' :: z.takeWhile dset.has, z.dropWhile dset.has, ?_, hane, ha,
+            Or.inr ⟨_, rfl, fun c hc => (has_digit c).1 (mem_takeWhile_sat _ _ c hc)⟩, hex _ h⟩
+          rw [List.cons_append, hz]; exact hx.symm
+        · have hsd : stripDot (c :: z) = c :: z := by
+            unfold stripDot; split
+            · rename_i z' heq; simp at heq; exact absurd heq.1 hc
+            · rfl
+          rw [hsd] at h
+          -- `c :: z` is what is left after the digits, so it does not start with a digit
+          have hnd : (c :: z).dropWhile dset.has = c :: z := by
+            rcases dropWhile_head_not dset.has x with h0 | ⟨c', t', h1, h2⟩
+            · rw [hy] at h0; simp at h0
+            · rw [hy] at h1; simp at h1; obtain ⟨rfl, rfl⟩ := h1
+              simp [List.dropWhile_cons, h2]
+          rw [hnd] at h
+          exact ⟨x.takeWhile dset.has, [], c :: z, by simpa using hx.symm, hane, ha, Or.inl rfl, hex _ h⟩
+    · simp at h
+  · rintro ⟨a, fr, ex, rfl, hane, ha, hfr, hex⟩
+    have hstop := expo_stop hex
+    have hexh : ((opt expoPart).ends ex).head? = some [] := by
+      rw [opt_expo_head]
+      rcases hex with h | h
+      · right; exact h
+      · left; exact (expo_accepts ex).2 h
+    rcases hfr with rfl | ⟨b, rfl, hb⟩
+    · obtain ⟨hd, ht⟩ := dropWhile_append_stop dset.has a ([] ++ ex) (dset_all ha) (by simpa using hstop)
+      rw [ht, hd, if_pos (by cases a <;> simp_all)]
+      simp only [List.nil_append]
+      have hsd : stripDot ex = ex := by
+        rcases hex with rfl | ⟨c, t, rfl, hc, _⟩
+        · rfl
+        · unfold stripDot; split
+          · rename_i z heq; simp at heq
+            rcases hc with rfl | rfl <;> exact absurd heq.1 (by decide)
+          · rfl
+      rw [hsd]
+      have : ex.dropWhile dset.has = ex := by
+        rcases hstop with rfl | ⟨c, t, rfl, hc⟩
+        · rfl
+        · simp [List.dropWhile_cons, hc]
+      rw [this]; exact hexh
+    · have hdot : dset.has '.' = false := by decide
+      obtain ⟨hd, ht⟩ := dropWhile_append_stop dset.has a (('.' :: b) ++ ex) (dset_all ha)
+        (Or.inr ⟨'.', b ++ ex, rfl, hdot⟩)
+      rw [ht, hd, if_pos (by cases a <;> simp_all)]
+      simp only [List.cons_append, stripDot]
+      rw [(dropWhile_append_stop dset.has b ex (dset_all hb) hstop).1]
+      exact hexh
+
+theorem fnumber_language (s : List Char) : fnumberAst.Accepts s ↔ IsFnumber s := by
+  have : fnumberAst = seq signOpt fnumberBody := rfl
+  rw [this]
+  unfold IsFnumber
+  rw [accepts_signOpt _ fnumber_noSign]
+  simp only [fnumber_body_language]
+
+example : fnumberAst.Accepts "-12.5e+3".toList := by decide
+example : fnumberAst.Accepts "7".toList := by decide
+example : fnumberAst.Accepts "7.".toList := by decide
+example : fnumberAst.Accepts "1E5".toList := by decide
+example : ¬ fnumberAst.Accepts ".5".toList := by decide
+example : ¬ fnumberAst.Accepts "1.5e".toList := by decide
+example : ¬ fnumberAst.Accepts "1..5".toList := by decide
+
 end PP.C18
